@@ -9,7 +9,8 @@ call site S the letter that was consumed just before decides the polarity:
    every aggregate built in S's region that has an `invert`/`negate` field takes that flag as the field's operand —
    or the constant false only when an `inverted()` call guarded by the flag reaches the aggregate (the icase branch
    complements first and stores `invert: false`). At least one such use must exist.
-A site that drops the polarity makes `\\P{X}` denote X (in a v-mode class only, where no existing test uses `\\P`).
+At every site that can see `P`, the StringSet outcome (a property of strings has no complement) ends in the parser's error on
+every path taken under the `P` polarity. A site that drops the polarity makes `\\P{X}` denote X (in a v-mode class only, where no existing test uses `\\P`).
 """
 from . import core
 from .report import RuleResult
@@ -18,9 +19,67 @@ RULE_TEXT = " ".join(x.strip() for x in __doc__.split("\n")[2:] if x.strip())
 ANCHOR = "try_consume_unicode_property_escape"
 
 
+def _strings_under_negation(b, fn, site, region, dom, letter):
+    """(problem text | None, number of StringSet edges decided). `\\P{property of strings}` has no complement: on the StringSet
+    outcome every path taken under the `P` polarity must end in the parser's error."""
+    cv = b.const_of_operand(letter)
+    if cv == ord("p"):
+        return None, 0
+    edges = []
+    for x in sorted(region):
+        blk = b.blocks[x]
+        for st in blk["s"]:
+            if st["k"] == "assign" and st["rv"]["k"] == "discr":
+                names = dict((v, nme) for v, nme in st["rv"].get("variants", []))
+                if "StringSet" in names.values() and blk["t"]["k"] == "switch":
+                    tg = [t_ for v, t_ in blk["t"]["targets"] if names.get(v) == "StringSet"]
+                    if not tg and all(names.get(v) != "StringSet" for v, _ in blk["t"]["targets"]):
+                        tg = [blk["t"]["otherwise"]]
+                    edges += tg
+    if not edges:
+        return None, 0
+    errs = {x for x in region if b.blocks[x]["t"]["k"] == "call" and (b.blocks[x]["t"].get("callee") or "").split("::")[-1] == "error"}
+    rets = {x for x in b.reachable() if b.blocks[x]["t"]["k"] == "return"}
+    if cv == ord("P"):
+        for e in edges:
+            if b.reach_from(e, avoid=errs) & rets:
+                return ("after `\\P` a property of strings (RGI_Emoji, ...) is not rejected: a path from the StringSet outcome reaches the "
+                        "function's return without the parser's error — `[\\P{RGI_Emoji}]` compiles and means `\\p{RGI_Emoji}`"), len(edges)
+        return None, len(edges)
+    # variable letter: the `== 'P'` flag decides
+    flag = None
+    for l, ds in b.defs().items():
+        for (dbb, si, kind, pay) in ds:
+            if kind == "assign" and pay["rv"]["k"] == "bin" and pay["rv"].get("op") == "Eq" and \
+                    ord("P") in (b.const_of_operand(pay["rv"]["a"]), b.const_of_operand(pay["rv"]["b"])) and (dbb == site or dbb in dom[site]):
+                flag = l
+    if flag is None:
+        return None, 0   # reported by the polarity clause
+    fsw = set()
+    true_edges = []
+    for x in region:
+        tt = b.blocks[x]["t"]
+        if tt["k"] != "switch" or tt["discr"].get("k") not in ("copy", "move"):
+            continue
+        rt_, pr_ = b.root_of(tt["discr"]["pl"]["l"])
+        if rt_ == flag and not pr_:
+            fsw.add(x)
+            true_edges.append(tt["otherwise"])
+    for e in edges:
+        if b.reach_from(e, avoid=errs | fsw) & rets:
+            return ("both `\\p` and `\\P` are handled here, and on the StringSet outcome a path reaches the return without the parser's "
+                    "error and without a test of the `== 'P'` flag: `\\P{property of strings}` is accepted and means `\\p{..}`"), len(edges)
+    for te in true_edges:
+        if any(te == e or e in dom[te] for e in edges) and b.reach_from(te, avoid=errs) & rets:
+            return ("on the StringSet outcome the `P` edge of the flag test does not end in the parser's error: "
+                    "`\\P{property of strings}` is accepted"), len(edges)
+    return None, len(edges)
+
+
 def check(facts):
     r = RuleResult("PROPNEG", RULE_TEXT)
     nsites = 0
+    nstrsites = [0]
     for fn in sorted(facts.body_names()):
         if "{closure" in fn:
             continue
@@ -49,6 +108,15 @@ def check(facts):
                     if depth > best:
                         best = depth
                         letter = tt["args"][1]
+            strset_problem = None
+            nstr_checked = 0
+            if letter is not None:
+                strset_problem, nstr_checked = _strings_under_negation(b, fn, bb, region, dom, letter)
+                nstrsites[0] += nstr_checked
+            if strset_problem:
+                r.fail("%s property-escape#%d rejects a negated property of strings" % (fn, ordinal), strset_problem, facts.loc(fn, t.get("line")))
+            elif nstr_checked:
+                r.ok("%s property-escape#%d rejects a negated property of strings" % (fn, ordinal))
             if letter is None:
                 r.fail("%s property-escape#%d" % (fn, ordinal), "cannot tell which letter (p/P) was consumed before the property escape",
                        facts.loc(fn, t.get("line")))
@@ -134,7 +202,8 @@ def check(facts):
                 r.ok(key, "%d polarity-carrying aggregates, %d guarded complements" % (uses, len(guarded)))
                 r.sample({"function": fn, "site_line": t.get("line"), "flag": b.local_name(flag) or "_%d" % flag,
                           "aggregates": uses, "guarded_complements": len(guarded)})
-    r.floor("property_escape_sites", nsites, 4)
+    r.floor("property_escape_sites", nsites, 3)   # 4 today; 3 when the sibling `p` / `P` arms of one parser are merged into one
+    r.floor("property_escape_sites_with_a_string_outcome_under_P", nstrsites[0], 3)
     # \p{Name=Value}: the name part is set at most once (a second `=` is a syntax error, not a new name)
     fnp = [n for n in facts.body_names() if n.endswith("::" + ANCHOR) and "{closure" not in n]
     for fn in fnp:
